@@ -24,7 +24,8 @@ CLAIMS = {
             PLN + "; " + EXE + " (InvC03s, InvC03x)", "DESIGN.md §5 C03"),
     "C04": ("Exactly once: the executed list (hook) contains every registered system exactly once at an append position (InvStruct), the built "
             "dispatcher runs the builder's plan; per-dispatch run counters of every system incl. systems inside (multi-)batches and thread-local ones "
-            "for dispatch / dispatch_par / dispatch_seq / dispatch_thread_local, checked by TLC at every end event.",
+            "for dispatch / dispatch_par / dispatch_seq / dispatch_thread_local, checked by TLC at every end event; asynchronous dispatches completed by "
+            "wait() (ordinary systems once per issued dispatch, thread-local ones once per wait, whatever was called in between).",
             PLN + "; " + EXE + " (InvStruct, InvC04s, InvC04x)", "DESIGN.md §5 C04"),
     "C05": ("Schedule independence: in Exec.tla every interleaving of every small plan ends in the world and the per-system observations of the sequential "
             "run; on the real code every value a system writes is recomputed by TLC from what it declared to read (order-sensitive hash), and the world read "
@@ -104,7 +105,8 @@ CLAIMS = {
             "TLC compares every placement with variant 0's (InvC19).",
             PLN + " with k variants per sequence (InvC19)", "DESIGN.md §5 C19"),
     "C20": ("Every real Debug print of a builder (unnamed systems, batches, names needing sanitising) is parsed and compared by TLC (C20Printed) with the "
-            "layout of the executed list, and the built dispatcher's layout with the builder's.",
+            "layout of the executed list, and the built dispatcher's layout with the builder's; builders printed after every registration call "
+            "(print; register; print) must show the plan of that moment.",
             PLN + " (InvC20)", "DESIGN.md §5 C20"),
 }
 # contributor modules register themselves here when present
